@@ -124,4 +124,23 @@ CHECKS = {
         "note": "Disk (zero thickness): 'inside' is only asserted for points exactly in the plane (axis-aligned normals). Points closer than tol to the boundary are not judged.",
         "technique": "bounded-exhaustive enumeration of shape lattice x constructed boundary-offset points on the real predicates vs exact reference classification",
     },
+    "C10": {
+        "text": ("For each of the 34 functions (+ the surface variant of point_to_ellipsoid) the full product of two primitive alphabets "
+                 "(11.7e3 pairs; alphabets built from lattice points, lattice directions and cube/generic rotations so that exactly "
+                 "parallel, perpendicular, coplanar, touching, contained and coincident pairs occur by construction) is executed; "
+                 "no exception, finite, d >= 0, returned points are members of their primitives (exact point-to-primitive distance, "
+                 "1e-9*L), |p1-p2| = d (1e-6*L)."),
+        "design_ref": "DESIGN.md 5 C10/C11",
+        "note": "Known finding KF-C10-ellipsoid-surface-inside is matched by exact (function, pair) only.",
+        "technique": "exhaustive enumeration of primitive-alphabet products on the real code vs exact reference membership",
+    },
+    "C11": {
+        "text": ("Same enumeration as C10; optimality decided by the separating-plane certificate along the returned direction, projected "
+                 "onto the directions of finite support for lines/planes (necessary and sufficient for convex pairs); circle "
+                 "functions by exhaustive interval subdivision over the circle angle with a Lipschitz bound (certified: no angle is "
+                 "closer than d - tol); ellipsoid surface by a 1-degree surface grid with refinement (witness search)."),
+        "design_ref": "DESIGN.md 5 C10/C11",
+        "note": "Given C10's feasibility, a reported d can only be too large; every alarm exhibits a strictly closer pair or a failing lower bound. Known findings matched by exact (function, pair).",
+        "technique": "exhaustive enumeration of primitive-alphabet products on the real code vs separating-plane certificates / Lipschitz interval subdivision",
+    },
 }
